@@ -181,6 +181,18 @@ wrapped["unistd"] = r'''
     }
 '''
 
+wrapped["mman"] = r'''
+    use iceoryx2_pal_concurrency_sync::sim;
+    use crate::posix::types::*;
+    // Address stability (see sim::quarantine): a mapping that is removed during a run must not hand its
+    // address range to the next mapping, otherwise two different shared objects would share an identity
+    // depending on the kernel's placement. The mapping is simply kept until the process ends.
+    pub unsafe fn munmap(addr: *mut void, len: size_t) -> int {
+        if sim::quarantine::is_on() { return 0; }
+        unsafe { real::munmap(addr, len) }
+    }
+'''
+
 wrapped["sched"] = r'''
     use iceoryx2_pal_concurrency_sync::sim;
     use crate::posix::types::*;
